@@ -46,6 +46,15 @@ WIDE = {"numpy.int32", "numpy.int64", "numpy.uint32", "numpy.uint64", "numpy.flo
 TRIANGLE_SELECTORS = {"numpy.triu_indices", "numpy.triu_indices_from", "numpy.tril_indices", "numpy.tril_indices_from"}
 
 
+def unit_weights(t):
+    """rapidfuzz: Levenshtein.distance(.., weights=(1, 1, 1)) is Levenshtein.distance(..) (the default weights)."""
+    if head(t) == "call" and strip(t[1]) == ("glob", "rapidfuzz.distance.Levenshtein.distance"):
+        kws = tuple((k, v) for k, v in t[3] if not (k == "weights" and strip(v) == ("tuple", (const(1), const(1), const(1)))))
+        if len(kws) != len(t[3]):
+            return ("call", t[1], t[2], kws)
+    return t
+
+
 def cdist_rewrite(t):
     """process.cdist: 'workers' does not influence the result; a >= 32 bit dtype is as good as the default."""
     if head(t) == "call" and strip(t[1]) == ("glob", "rapidfuzz.process.cdist"):
@@ -132,7 +141,8 @@ def check_scorer(r, rule, initq):
     need = ["insertion_weight", "deletion_weight", "substitution_weight"]
     if not all(n in names for n in need):
         raise AnalysisBroken(f"{initq}: weight parameters vanished")
-    eq = Equiv(rewrites=std_rewrites() + [canon_binders], modelled={"rapidfuzz.distance.Levenshtein.distance"})
+    from ..rules import small_rewrites as _small
+    eq = Equiv(rewrites=std_rewrites() + [unit_weights, _small, canon_binders], modelled={"rapidfuzz.distance.Levenshtein.distance"})
     check_equiv(rep, rule, initq, "scorer = rapidfuzz Levenshtein with weights=(insertion, deletion, substitution); the unweighted shortcut only when all three weights are 1",
                 strip_all(val), strip_all(spv), where_of(r.P, s.func, s.func.node), eq=eq, key="weight tuple")
 
@@ -340,7 +350,10 @@ def run(r):
     vv = strip_all(v) if v is not None else None
     okd = vv is not None and head(vv) == "call" and vv[1] == ("glob", L + "WeightedLevenshtein") and len(vv[2]) <= 3 and all(is_const(a, 1) for a in vv[2]) \
         and all(k in ("insertion_weight", "deletion_weight", "substitution_weight") and is_const(x, 1) for k, x in vv[3])
-    rep.ob("C08-LV", L + "Levenshtein.__init__", okd, "the delegate is a default-constructed (unit weight) WeightedLevenshtein", where_of(r.P, s.func, s.func.node), expected="WeightedLevenshtein()", found=show(v, 60), key="delegate ctor")
+    if v is None:
+        rep.require(False, f"{L}Levenshtein.__init__: no attribute _weighted_levenshtein is set (the delegation was restructured); cannot decide [C08-LV]")
+    else:
+      rep.ob("C08-LV", L + "Levenshtein.__init__", okd, "the delegate is a default-constructed (unit weight) WeightedLevenshtein", where_of(r.P, s.func, s.func.node), expected="WeightedLevenshtein()", found=show(v, 60), key="delegate ctor")
     check_pdist(r, "C08-LNE")
     check_cdist(r, "C08-LNE")
     for rule, fl in (("C08-PURE", 12), ("C08-W", 2), ("C08-CD", 1), ("C08-PV", 1), ("C08-LV", 3), ("C08-LNE", 12)):
